@@ -1,21 +1,25 @@
 """C15 - every HTTP response is a well-formed, self-delimiting message with exact body.
 
-Pipeline (DESIGN 6/C15):
+Pipeline (DESIGN 6/C15, design.d/C15.md):
   1. TLC checks spec/web/HttpResponse.tla exhaustively: a connection state
      machine (<= 3 requests, the next one only while the previous response kept
      the connection open) whose responses follow the *intended* framing
-     algorithm (Variant = "rfc") obeys the C15 monitor of HttpResponseOps for
-     the full product of configurations; the algorithm of the pinned code
-     (Variant = "pinned") must violate it (defect generator).
+     algorithm (DefectChoices = {{}}) obeys the C15 monitor of HttpResponseOps
+     for the full product of configurations; each named defect of the pinned
+     code violates it (ASSUME Teeth; MC_HttpResponse_pinned.cfg must fail).
   2. TLC dumps the environment histories (every single configuration of the
-     full product; every sequence over a reduced product); each is replayed on
-     the real circuits.web pipeline (HTTP + Dispatcher + a Controller returning
-     the body kind) over the socket double of harness/httpdouble.py.  The bytes
+     full product; every sequence over a reduced product) with the lines the
+     intended and the pinned algorithm predict; each history is replayed on the
+     real circuits.web pipeline (HTTP + Dispatcher + a Controller returning the
+     body kind) over the socket double of harness/httpdouble.py.  The bytes
      written are decoded by http.client.HTTPResponse (independent
      implementation) and logged as one outcome line per exchange.
   3. TLC judges every recorded trace with spec/web/HttpResponseTrace.tla
-     (same monitor).  The model's predicted lines are compared with the real
-     ones (conformance drift).
+     (same monitor).  Each real line is compared with the predicted lines
+     (conformance drift when it equals neither variant's).
+
+`python -m harness.drivers.c15 explore '<json list of cfgs>' ...` prints what the
+tree under $VERIF_REPO does for a sequence of configurations.
 """
 
 import http.client
@@ -31,7 +35,7 @@ from ..core import Ctx, use_repo, VERIF
 SPEC = 'spec/web'
 PID = 'C15'
 
-SETTLE_TICKS = 150          # a legitimate exchange settles in < 15 ticks (measured)
+SETTLE_TICKS = 100          # a legitimate exchange settles in < 15 ticks (measured)
 
 PROTOS = [10, 11]
 METHODS = ['GET', 'HEAD']
@@ -464,8 +468,6 @@ def run(tier, replay=None):
     jobs = {
         'mc': lambda: tlc.model_check(SPEC, 'HttpResponse', 'MC_HttpResponse_quick.cfg' if quick else 'MC_HttpResponse.cfg',
                                       coverage=True, workers=4 if quick else 12),
-        'mc1': lambda: tlc.model_check(SPEC, 'HttpResponse', 'MC_HttpResponse_lines.cfg', workers=2),
-        'gen:pinned': lambda: tlc.run_tlc(SPEC, 'HttpResponse', 'MC_HttpResponse_pinned.cfg', workers=2),
     }
     for n, hc in enumerate(['HIST_HttpResponse_quick.cfg'] if quick else
                            ['HIST_HttpResponse_thorough2.cfg', 'HIST_HttpResponse_thorough3.cfg']):
@@ -477,25 +479,24 @@ def run(tier, replay=None):
     timing['tlc_each_s'] = {k: round((v[0] if isinstance(v, tuple) else v).wall_s, 1) for k, v in results.items()}
     t0 = time.time()
     mc = results['mc']
-    mc1 = results['mc1']
     if 'Exchange' in mc.coverage and mc.coverage['Exchange'][1] == 0:
         raise tlc.MachineryError('vacuous model: action Exchange never taken')
-    # (every single defect violates the monitor: ASSUME Teeth in HttpResponse.tla, evaluated by each run above)
-    for v in ('pinned',):
-        if results['gen:' + v].violated != 'Conforms':
-            raise tlc.MachineryError('defect variant %s of HttpResponse.tla does not violate Conforms (%s): the model lost its teeth'
-                                     % (v, results['gen:' + v].violated))
+    # (every single defect violates the monitor: ASSUME Teeth in HttpResponse.tla, evaluated by each run above;
+    #  the history dumps hold the intended variant to all invariants (IConforms, IFramed, ...) on every dumped
+    #  state, i.e. for every single configuration of the full product with its line in the state)
 
     # predictions: variant -> history -> (line of the last exchange, served from a stale pair?)
     names = {frozenset(): 'rfc', frozenset(DEFECTS): 'pinned'}
     pred = {v: {} for v in VARIANTS}
+    model_bad = {v: set() for v in VARIANTS}
     hists = {}
-    dump_states = 0
+    dump_states = dump_trans = 0
     for key, val in results.items():
         if not key.startswith('hist'):
             continue
         res, states = val
         dump_states += res.distinct
+        dump_trans += res.generated
         for st in states:
             h = tuple(tuple(x) for x in st['hist'])
             if not h:
@@ -503,6 +504,13 @@ def run(tier, replay=None):
             v = names[frozenset(st['dv'])]
             pred[v][h] = (st['out'][-1], bool(st['stale']))
             hists[h] = st['hist']
+            if st['bad']:
+                model_bad[v].add(st['bad'])
+    # the defect generator: in the dump, the pinned algorithm must have been flagged by the monitor (inside TLC)
+    if not model_bad['pinned']:
+        raise tlc.MachineryError('the pinned variant of HttpResponse.tla violates no clause: the model lost its teeth')
+    if model_bad['rfc']:
+        raise tlc.MachineryError('the intended variant of HttpResponse.tla is flagged by the monitor: %s' % model_bad['rfc'])
     prefixes = set()
     for h in hists:
         for i in range(1, len(h)):
@@ -514,7 +522,7 @@ def run(tier, replay=None):
 
     # seeded random sequences over the full product (code -> spec only)
     allcfg = [cfg_of(h[0]) for h in singles]
-    nrand = 400 if quick else 6000
+    nrand = 400 if quick else 3000
     for _ in range(nrand):
         seqs.append([dict(rnd.choice(allcfg)) for _ in range(3)])
         origin.append('random')
@@ -533,7 +541,7 @@ def run(tier, replay=None):
     # 3. TLC judges every recorded trace
     traces = [r[0] for r in runs]
     verdicts, stats = tlc.validate_traces(SPEC, 'HttpResponseTrace', 'HttpResponseTrace.cfg', traces,
-                                          shards=6 if quick else 16)
+                                          shards=4 if quick else 16)
     timing['validate_s'] = round(time.time() - t0, 1)
     t0 = time.time()
     accepted = []
@@ -579,7 +587,7 @@ def run(tier, replay=None):
     pool = list(accepted)
     rnd.shuffle(pool)
     for lines in pool:
-        if len(muts) >= (80 if quick else 600):
+        if len(muts) >= (80 if quick else 300):
             break
         m = mutate_trace(rnd, lines)
         if m:
@@ -592,7 +600,7 @@ def run(tier, replay=None):
 
     timing['compare_and_selftest_s'] = round(time.time() - t0, 1)
     return ctx.finish(coverage={
-        'states': mc.distinct + mc1.distinct, 'transitions': mc.generated + mc1.generated,
+        'states': mc.distinct + dump_states, 'transitions': mc.generated + dump_trans,
         'traces_validated_against_impl': len(traces),
         'configurations_full_product': len(singles),
         'model_histories_replayed': len(maximal),
@@ -603,7 +611,8 @@ def run(tier, replay=None):
         'trace_validation_states': stats['states'],
         'corrupted_traces_rejected': len(muts),
         'timing': timing,
-        'defect_variants_violate': ['pinned'] + DEFECTS,   # pinned: TLC counterexample; each single defect: ASSUME Teeth
+        'model_pinned_variant_clauses': sorted(model_bad['pinned']),   # clauses TLC's monitor flags in the pinned algorithm
+        'defects_with_teeth': DEFECTS,                                  # ASSUME Teeth, evaluated by TLC in every run
         'rule': 'cases = sequences of configurations (proto, method, Connection, status, body kind, stream flag) on one '
                 'connection: every single configuration of the full product and every sequence (<= %d) over a reduced '
                 'product, all dumped by TLC from HttpResponse.tla, plus seeded random triples over the full product; '
